@@ -1,6 +1,7 @@
 """C20 — counters and callbacks: who may call the user's right-hand side, who may write the counters, njev on every path of
 jac, position of the callback loop in the iteration, dt integrity between a callback and the next step."""
 import ast
+import re
 
 from ..flow import Client, Engine
 from ..front import AnalysisError, dotted, fname, is_self_attr, src, walk_no_nested, ancestors, qualname_of
@@ -193,6 +194,26 @@ def callbacks(repo, run, m):
             run.report("C20.3", DS, defs[-1], "on some path (e.g. the callbacks given as a list) the callback parameter is iterated as it was passed: the caller's own list object "
                                               "is then iterated once per step, and a callback that mutates it (removes itself, adds another) makes later callbacks be skipped or "
                                               "unlisted ones run", text="callback list aliasing")
+    # ... and the given object is DROPPED (rebound to an empty list) only when it is None: any other test (truthiness, len(), ==) consults a protocol of the
+    # user's object - a callable with __len__ / __bool__ (a recorder that is empty at the start) is falsy and would never be invoked.
+    if okd:
+        from ..sym import path_condition, tree_atoms, eval_bool, BoolTracker
+        import itertools
+        for st in defs:
+            if src(st.value) not in ("[]", "list()"):
+                continue
+            bt2 = BoolTracker()
+            pc = path_condition(st, m.fn, tracker=bt2)[0]
+            ats = tree_atoms(pc)
+            none_atoms = [a for a in ats if re.sub(r"\s+", "", a.split("@")[0]) in ("callbackisNone", "callbackIsNone", "NoneIscallback", "callback Is None".replace(" ", ""))]
+            implied = bool(none_atoms) and len(ats) <= 10 and all(
+                any(dict(zip(ats, vals))[a] for a in none_atoms)
+                for vals in itertools.product((False, True), repeat=len(ats)) if eval_bool(pc, dict(zip(ats, vals))))
+            run.judged(rid, "the callbacks are dropped only under `callback is None` (atoms %s)" % [a.split("@")[0] for a in ats], ok=implied)
+            if not implied:
+                run.report("C20.3", DS, st, "the given callback object is replaced by an empty list under a condition that does not imply `callback is None` (atoms: %s): a truth-value / "
+                                            "length / equality test consults the user's object, and a legal callable that is falsy (defines __len__ or __bool__) is never invoked" % (
+                                                [a.split("@")[0] for a in ats],), text="callbacks dropped under a test other than `is None`")
     run.judged(rid, "callback list construction: %s" % [src(st.value) for st in defs], ok=okd)
     if not okd:
         run.report("C20.3", DS, defs[0] if defs else m.fn, "the callback list is not taken as given (list(callback) / [callback] / [])", text="callback list construction")
